@@ -12,7 +12,7 @@ from .common import VERIF, REPO
 from .tlc import Machinery
 
 OUT = os.path.join(VERIF, "out")
-EVID = os.path.join(VERIF, "evidence")
+EVID = os.environ.get("VERIF_EVIDENCE_DIR") or os.path.join(VERIF, "evidence")   # self-tests redirect it
 KNOWN = os.path.join(VERIF, "known_findings.json")
 
 
